@@ -14,7 +14,11 @@ OneVar == {[kind |-> kd, vars |-> [n \in {"t"} |-> d], mode |-> m, bc |-> b, exp
 TwoVars == {[kind |-> kd, vars |-> [n \in {"t", "u"} |-> IF n = "t" THEN d1 ELSE d2], mode |-> m, bc |-> b, expr |-> e, bplace |-> bp] :
              kd \in Kinds, d1 \in Domains, d2 \in Domains, m \in {"comb", "bp"}, b \in BOOLEAN,
              e \in {"t+u", "t*u", "u-t"}, bp \in {"config", "default"}}
-AllSpecs == OneVar \cup TwoVars
+\* string-valued expressions over two variables: operand order of + matters
+CatDomains == {Seq_(<<1, 2>>), Seq_(<<3>>), Seq_(<<4, 5, 6>>), Lin(0, 6, 3, FALSE), Ctx("s")}
+CatSpecs == {[kind |-> kd, vars |-> [n \in {"t", "u"} |-> IF n = "t" THEN d1 ELSE d2], mode |-> m, bc |-> b, expr |-> e, bplace |-> "default"] :
+             kd \in Kinds, d1 \in CatDomains, d2 \in CatDomains, m \in {"comb", "bp"}, b \in BOOLEAN, e \in {"cat", "tac"}}
+AllSpecs == OneVar \cup TwoVars \cup CatSpecs
 SmallDomains == {Seq_(<<1, 2>>), Seq_(<<3>>), Lin(0, 6, 3, FALSE), Ctx("s")}
 ThreeVars == {[kind |-> kd, vars |-> [n \in {"t", "u", "v"} |-> IF n = "t" THEN d1 ELSE IF n = "u" THEN d2 ELSE d3],
                mode |-> m, bc |-> b, expr |-> e, bplace |-> bp] :
